@@ -52,6 +52,12 @@ class C08(Prop):
                     if rng.random() < 0.4:
                         c['default_handler'] = 'cwd'    # ... or, with the variable unset, from the current directory
                         c['stream'] += ':cwd'
+                elif rng.random() < 0.3:
+                    # a second vendor quoting every asset 50 % higher is listed AFTER the first one: sizing (ask), fills and marks
+                    # (bid) all use the first vendor's figures
+                    c['market'] = dict(c['market'], backup=dict((n_, [[r_[0]] + [None if v_ is None else v_ * 1.5 for v_ in r_[1:]] for r_ in rows_])
+                                                                for n_, rows_ in c['market']['assets'].items()))
+                    c['stream'] += ':second-vendor-listed-after'
         return out
 
     @staticmethod
